@@ -6,3 +6,4 @@ pub mod world;
 pub mod rp;
 pub mod hist;
 pub mod oracle;
+pub mod runner;
